@@ -186,10 +186,9 @@ def _plan(tier):
     P.append(("trial", dict(driver="Canonical", table="d", n=2, fixed=(0,), check=True, warm=1), R + ("failed", "earlier-accepted", "earlier-rejected", "earlier-failed")))
     P.append(("trial", dict(driver="Isobaric", table="cell", n=1, fixed=(), check=False, coin=True, warm=1), R + ("earlier-accepted", "earlier-rejected")))
     if not q:
-        P.append(("trial", dict(driver="GrandCanonical", table="e", n=3, fixed=(2,), check=False, warm=1), R + ("earlier-accepted", "earlier-rejected")))
+        P.append(("trial", dict(driver="GrandCanonical", table="e", n=3, fixed=(2,), check=False, coin=True, warm=1), R + ("earlier-accepted", "earlier-rejected")))
         P.append(("trial", dict(driver="GrandCanonical", table="e+e", n=2, fixed=(1,), check=True, coin=True, warm=1), R + ("failed", "earlier-accepted")))
-        P.append(("trial", dict(driver="HamiltonianCanonical", table="h", n=1, fixed=(), check=True, warm=1), R + ("failed", "earlier-accepted", "earlier-failed")))
-        P.append(("trial", dict(driver="Isobaric", table="cell", n=2, fixed=(), check=True, warm=1), R + ("failed", "earlier-accepted", "earlier-rejected", "earlier-failed")))
+        P.append(("trial", dict(driver="Isobaric", table="cell", n=2, fixed=(), check=True, coin=True, warm=1), R + ("failed", "earlier-accepted", "earlier-rejected", "earlier-failed")))
         P.append(("trial", dict(driver="GrandCanonical", table="e2", n=3, fixed=(0,), check=True, coin=True), R))
         P.append(("trial", dict(driver="Canonical", table="d2", n=3, fixed=(2,), check=True), R + ("failed",)))
         P.append(("trial", dict(driver="Isotension", table="cell", n=2, fixed=(0,), check=True), R + ("failed",)))
